@@ -171,6 +171,7 @@ def save_stage(chk):
     fault_cases, fault_meta = [], []       # T3 prediction vs real handled failure
     inj_ok = True
     base_index = {}
+    pl_terms, pl_meta = [], []             # power-loss predicate on baseline and fault-run traces
 
     def add_listing(sc, r, label):
         d = r["dir"]
@@ -208,6 +209,9 @@ def save_stage(chk):
                           f"{g_bytes(new or b'')})")
         base_index[id(sc)] = len(base_meta)
         base_meta.append((sc, tr))
+        pl_terms.append(base_terms[-1])
+        pl_meta.append(({**sc.key(), "run": "baseline", "trace": ft.describe(tr["ops"])}, tr["ops"],
+                        {"call": sc.action, "run": "baseline", "failed_call": None}))
 
     for job, r in zip(jobs, results):
         si, what, ai = job
@@ -259,6 +263,12 @@ def save_stage(chk):
                      "what": "state" if not st.startswith(("old", "new")) else "temp-left"},
                     f"{att['kind']} failing with {what}: " + "; ".join(bad),
                     {**case, "exit": r["status"]})
+            # power loss after this run (un-fsynced data lost): old or new must survive
+            tgt_r = r["dir"] + b"/state.json.gz"
+            new_r = content if st.startswith("new") and content is not None else b""
+            pl_terms.append(f"({ft.g_kops(tr['ops'])}, {g_bytes(tgt_r)}, {g_opt(sc.old, g_bytes)}, {g_bytes(new_r)})")
+            pl_meta.append(({**case, "trace_of_this_run": ft.describe(tr["ops"]), "exit": r["status"]}, tr["ops"],
+                            {"call": sc.action, "run": "failing-call", "failed_call": att["kind"]}))
             # T3 prediction (model of the try/finally) vs the real outcome
             fault_cases.append((si, att["index"], {"old": 0, "new": 1}.get(st.split(":")[0], 2), not others))
             fault_meta.append(case)
@@ -324,8 +334,32 @@ def save_stage(chk):
                                  f"real outcome (class,clean)={fault_cases[i][2:]} differs from the model of the error handler")
             chk.obligation("corr:fault_outcome_model", "correspondence", not lists[2])
 
+    # --- Coq: the power-loss predicate (theorem C11_powerloss_atomic_exact) on every baseline
+    #     trace and on the trace of every run in which a call was made to fail
+    vals = _eval_values(
+        chk, "powerloss", pl_terms,
+        "Definition val (c : list kop * path * option bytes * bytes) : Z :=\n"
+        "  let '(ops, t, old, new) := c in\n"
+        "  match powerloss_first_bad ops t old new with Some k => k | None => -1 end.\n",
+        "list kop * path * option bytes * bytes")
+    if vals is None:
+        chk.obligation("eval:powerloss", "correspondence", False)
+    else:
+        chk.obligation("eval:powerloss", "correspondence", True)
+        for (case, ops, key), k in zip(pl_meta, vals):
+            chk.count(1)
+            chk.dist("powerloss:" + key["run"])
+            if k >= 0:
+                after = ops[k - 1][0] if k >= 1 else "start"
+                chk.monitor_failure(
+                    "powerloss_old_or_new", {**key, "bad_after": after},
+                    f"power loss after call #{k} ({after}) of this run: the state file would hold data that was never "
+                    "fsynced (empty/truncated), neither the complete old nor the complete new state",
+                    {**case, "first_bad_point": k})
+
     # --- in-process: a failure raised by the compressor (not a system call)
     python_level_faults(chk)
+    interrupt_faults(chk)
 
 
 def _eval_mismatches(chk, name, terms, meta, ok_def, ty, shard=40):
@@ -354,6 +388,115 @@ def _eval_mismatches(chk, name, terms, meta, ok_def, ty, shard=40):
             ok = False
             chk.corr_failure(name, meta[offsets[si] + i], "model prediction differs from the implementation")
     return ok
+
+
+def _eval_values(chk, name, terms, val_def, ty, shard=40):
+    """Evaluate `val : ty -> Z` on every term; returns the list of values (None on failure)."""
+    if not terms:
+        return []
+    shards, cur, size = [], [], 0
+    for t in terms:
+        if cur and (len(cur) >= shard or size + len(t) > 100000):
+            shards.append(cur)
+            cur, size = [], 0
+        cur.append(t)
+        size += len(t)
+    if cur:
+        shards.append(cur)
+    texts = [COQ_IMPORTS + f"Definition cases : list ({ty}) :=\n " + g_list(s) + ".\n" + val_def
+             + "Eval vm_compute in map val cases.\n" for s in shards]
+    out_vals = []
+    for sh, (rc, out) in zip(shards, vlib.coq_eval_many(AREA, texts, jobs=14)):
+        lst = vlib.parse_nat_list(out)
+        if rc != 0 or lst is None or len(lst) != len(sh):
+            chk.corr_failure(name, {"coq": "evaluation failed"}, out[-1500:])
+            return None
+        out_vals += lst
+    return out_vals
+
+
+class _Async(BaseException):
+    """stands for any other exception raised from a signal handler"""
+
+
+def interrupt_faults(chk):
+    """An asynchronous exception -- KeyboardInterrupt, SystemExit, another BaseException --
+    raised at EVERY line of storage.dump (sys.settrace: the exception appears in dump's frame
+    right before the k-th line it executes), driven through Core._teardown().  If _teardown
+    returns normally the failure was handled: no temporary file may be left and the state file
+    must be the complete old or new state.  If the exception escapes (the process is dying)
+    only the state file is checked."""
+    import sys
+
+    vlib.setup_impl()
+    from mopidy.core import Core
+    from mopidy.internal import storage
+
+    dump_code = storage.dump.__code__
+    old = old_bytes("previous")
+    # Only ASYNCHRONOUS exception classes are swept over every line (a signal handler can raise
+    # them between any two bytecodes).  Synchronous failures are injected where they can
+    # originate: every system call (strace errno injection above) and the compressor /
+    # serializer (python_level_faults); raising e.g. OSError "before `tmp_path = Path(...)`"
+    # would not correspond to any possible execution.
+    classes = [("KeyboardInterrupt", KeyboardInterrupt), ("SystemExit", SystemExit), ("BaseException", _Async)]
+    for cname, make in classes:
+        k = 0
+        while k < 200:
+            k += 1
+            root = Path(tempfile.mkdtemp(prefix="verif-c11-"))
+            try:
+                d = root / "core"
+                d.mkdir()
+                target = d / "state.json.gz"
+                target.write_bytes(old)
+                core = Core(config={"core": {"max_tracklist_length": 10000, "restore_state": True,
+                                             "data_dir": str(root)}}, mixer=None, backends=[])
+                state = {"n": 0, "fired": False, "line": None}
+
+                def local(frame, event, arg, state=state, k=k, make=make):
+                    if event == "line":
+                        state["n"] += 1
+                        if state["n"] == k:
+                            state["fired"] = True
+                            state["line"] = frame.f_lineno - dump_code.co_firstlineno
+                            raise make()
+                    return local
+
+                def tracer(frame, event, arg):
+                    return local if frame.f_code is dump_code else None
+
+                handled = True
+                sys.settrace(tracer)
+                try:
+                    core._teardown()
+                except BaseException:  # noqa: BLE001 - the process would be going down
+                    handled = False
+                finally:
+                    sys.settrace(None)
+                import gc
+                gc.collect()
+                if not state["fired"]:
+                    break  # dump has fewer than k lines: every line was covered
+                content = target.read_bytes() if target.exists() else None
+                pay = gunzip_or_none(content or b"")
+                st = "old" if content == old else ("new" if pay is not None and b'"StoredState"' in pay else "bad")
+                others = sorted(p.name for p in d.iterdir() if p.name != "state.json.gz")
+                chk.count(1, nontrivial_key=("interrupt", cname, k))
+                chk.dist(f"exception_at_line:{cname}:{'handled' if handled else 'escapes'}")
+                case = {"exception": cname, "at_line_event": k, "line_in_dump": state["line"], "handled_by_teardown": handled}
+                if st == "bad":
+                    chk.monitor_failure("handled_failure_clean",
+                                        {"call": "Core._teardown", "fault": cname, "handled": handled, "what": "state"},
+                                        f"{cname} raised at line +{state['line']} of storage.dump: the state file is neither old nor new",
+                                        case)
+                if handled and others:
+                    chk.monitor_failure("handled_failure_clean",
+                                        {"call": "Core._teardown", "fault": cname, "handled": True, "what": "temp-left"},
+                                        f"{cname} raised at line +{state['line']} of storage.dump was handled by Core._teardown "
+                                        f"(shutdown goes on) but temporary files were left behind: {others}", case)
+            finally:
+                shutil.rmtree(root, ignore_errors=True)
 
 
 def python_level_faults(chk):
@@ -646,7 +789,7 @@ def run(chk):
         "against the real directory after every injected crash/fault)",
     ]
     chk.assumptions = [
-        "crash = death of the process (page cache survives); power loss / fsync durability is not modelled",
+        "two crash models: death of the process (page cache survives; real SIGKILLs) and power loss as the journalling abstraction (content durable after fsync of the file, directory operations durable at once; model-side on real traces)",
         "gzip/zlib/pydantic are oracles with the outcome set NotAFile|OSError|EOFError|zlib.error|ValueError|Ok",
         "no concurrent writer to the data directory; writes through mmap would be invisible to the trace",
     ]
